@@ -1234,3 +1234,29 @@ package stats
 //@   check @ret5 [upper-only] result0 == y(x) + (1 - y(2 * kde.BoundaryMax - x))
 //@   check @ret6 [period]     d == 2 * (kde.BoundaryMax - kde.BoundaryMin) && w == 2 * (x - kde.BoundaryMin)
 //@   assigns kde.Bandwidth
+
+// ---------------------------------------------------------------------
+// Geometric mean (C09): exp of the mean of the logarithms; NaN for an empty
+// slice and as soon as a value is not positive.
+//@ spec lsum(a []float64, k int) float64 = k <= 0 ? 0 : lsum(a, k-1) + log(a[k-1])
+
+//@ func GeoMean
+//@   deterministic
+//@   model real
+//@   ensures [empty]       len(xs) == 0 ==> isnan(result)
+//@   ensures [nonpositive] (exists k in 0..len(xs) :: xs[k] <= 0) ==> isnan(result)
+//@   ensures [def]         len(xs) > 0 && (forall k in 0..len(xs) :: xs[k] > 0) ==> result == exp(lsum(xs, len(xs)) / len(xs))
+//@   loop 1 (i) invariant (forall k in 0..i :: xs[k] > 0) && m * i == lsum(xs, i)
+//@   assigns nothing
+
+// weighted: exp(sum(w*log x)/sum(w)) over the values with non-zero weight
+//@ spec wlsum(a []float64, w []float64, k int) float64 = k <= 0 ? 0 : wlsum(a, w, k-1) + w[k-1] * log(a[k-1])
+//@ func Sample.GeoMean
+//@   use fsum_nonneg
+//@   model real
+//@   requires wfSample(s) && (!isnil(s.Weights) ==> nonneg(s.Weights))
+//@   ensures [unweighted] (len(s.Xs) == 0 || isnil(s.Weights)) ==> result == GeoMean(s.Xs)
+//@   ensures [no-weight]  len(s.Xs) > 0 && !isnil(s.Weights) && fsum(s.Weights, len(s.Xs)) == 0 ==> isnan(result)
+//@   ensures [weighted]   len(s.Xs) > 0 && !isnil(s.Weights) && fsum(s.Weights, len(s.Xs)) > 0 ==> result == exp(wlsum(s.Xs, s.Weights, len(s.Xs)) / fsum(s.Weights, len(s.Xs)))
+//@   loop 1 (i) invariant wsum == fsum(s.Weights, i) && wsum >= 0 && m * wsum == wlsum(s.Xs, s.Weights, i)
+//@   assigns nothing
